@@ -394,6 +394,7 @@ func runStress(j Job) Outcome {
 	if j.MaxFirst {
 		opts[0], opts[1] = opts[1], opts[0]
 	}
+	opts = append(opts, Bystanders(uint64(j.Seed)>>3)...)
 	atk := vegeta.NewAttacker(append(opts, vegeta.Client(client))...)
 	limit := uint64(j.Len)
 	stopAt := -1
@@ -676,6 +677,7 @@ func RunCommon(prop string, c *run.Ctx, s *kit.Summary, children func([]Job, int
 			RaceRun("./cmd/c02", c, s, r)
 			DualStackRuns(c, s, r)
 			LazyTargeterRuns(c, s, r)
+			SlowBodyRuns(c, s, r)
 		}
 	}
 }
